@@ -442,6 +442,8 @@ class YPPythonCodeGenerator:
         wrap_code = self.l("for _ in [1]:")
         self.indent()
         code = self.generate_code_list(func.body)
+        if code == "":
+            code = self.l("pass")
         self.dedent()
         # break_code = self.generate_break_code() # level <= 1, not needed
         false_yield_code = self.generate_code_list( [ YPCodeIf(YPCodeExpr(False),[YPCodeYieldFalse()]) ])
